@@ -36,6 +36,7 @@ RULE += ' Round 7: headers of 7 / 16 bytes on (multi-file) flat recordings.'
 RULE += ' Round 8: model datasets with a single template; a second export of the same selection under another unit factor.'
 RULE += ' Round 10: multi-file recordings whose parts have equal base names; unit factors 0, 0.0 and -3; an export in which one chunk yields 8.2 MiB of waveforms after a chunk with two or three spikes.'
 RULE += ' Round 11: derived readers (per-channel gains, then a channel permutation) handed to the three routes; stored channel rows that keep a -1 inside; samples at the ends of their range with integer unit factors.'
+RULE += ' Round 12: model route: the raw recording is archived away after the export and a fresh model serves the store; an export of no spike (also over an earlier export).'
 EXHAUSTIVE = {'quick': False, 'thorough': False}
 FLOORS = {'quick': {'evaluations': 6000, 'distinct_nontrivial': 4000, 'monitors': {'M1.checked': 100000}},
           'thorough': {'evaluations': 80000, 'distinct_nontrivial': 40000, 'monitors': {'M1.checked': 500000}}}
